@@ -31,14 +31,17 @@ PAIRS = {
     "scale": ("cp_als", "hosvd", "tucker_als"),
     "relabel": ("cp_als", "hosvd", "tucker_als"),
 }
-# everything except the cp_als relations proved in Props/C18.v (repr, print, scale)
-CORRESPONDENCE_ONLY = [f"{p}.{a}" for p, algs in PAIRS.items() for a in algs
-                       if not (a == "cp_als" and p in ("repr", "print", "scale"))]
-# relabel.cp_als: only the denotation lemma C18_relabel_den is proved; the algorithm-level statement C18_relabel_stmt is not
+# everything except what Props/C18.v proves: cp_als repr / print / scale / relabel (sweep + loop model) and hosvd / tucker_als
+# scale (rank rule + abstract projector model; the eigen-solvers behind it stay correspondence-only, see the manifest note)
+PROVED = {("cp_als", "repr"), ("cp_als", "print"), ("cp_als", "scale"), ("cp_als", "relabel"), ("hosvd", "scale"), ("tucker_als", "scale")}
+CORRESPONDENCE_ONLY = [f"{p}.{a}" for p, algs in PAIRS.items() for a in algs if (a, p) not in PROVED]
 
 RULE = ("metamorphic pairs of real runs, maxiters <= 5, <= 36 cells, ranks 1-2: repr = dense vs sparse holder of the same integer "
         "data (stored order sorted|reversed|random) for cp_als, cp_apr mu/pdnr/pqnr, tucker_als (hosvd and gcp_opt+LBFGSB reject "
-        "sparse data: not applicable); print = printitn/verbosity 0 vs {1,2,5} for all seven; seed = same np.random.seed twice "
+        "sparse data: not applicable); print = printitn/verbosity 0 vs {1,2,5} for all seven, plus ALL PAIRS of printing intervals from "
+        "{0,1,2,5} on runs of 4-6 outer iterations whose cp_apr starts have structural zeros in the first factor (mu: the inadmissible-"
+        "zero repair fires in mode 0 right after a printed / a silent iteration), likewise pdnr / pqnr / cp_als / tucker_als and hosvd "
+        "verbosity pairs (1,3,6); seed = same np.random.seed twice "
         "(all with a random start; hosvd has none); scale = X vs cX, c in {2, 8, 1/4} for cp_als, hosvd, tucker_als only (cp_apr and "
         "gcp losses are not scale-equivariant: skipped); relabel = X vs X.permute(p) with guess/ranks permuted and "
         "dimorder' = [p.index(m) for m in dimorder] for cp_als, hosvd, tucker_als only (cp_apr and gcp have no mode-order "
@@ -131,13 +134,22 @@ def _wellcond(F, R):
     return True
 
 
-def gen_init(rng, shape, ranks, lo=1):
-    """factor numerators over 8 (entries lo/8..8/8); ranks: int or per-mode list"""
+def gen_init(rng, shape, ranks, lo=1, zeros=False):
+    """factor numerators over 8 (entries lo/8..8/8); ranks: int or per-mode list.
+    zeros=True: STRUCTURAL zeros in the start - about 40% of the entries of the first factor and 15% of the others are exactly 0,
+    every row and every column keeps a nonzero (cp_apr: the inadmissible-zero repair / active-set logic has work to do in mode 0)"""
     rl = ranks if isinstance(ranks, list) else [ranks] * len(shape)
     fs = []
-    for d, R in zip(shape, rl):
+    for n, (d, R) in enumerate(zip(shape, rl)):
         for _ in range(200):
             F = [[rng.randint(lo, 8) for _ in range(R)] for _ in range(d)]
+            if zeros:
+                pz = 0.4 if n == 0 else 0.15
+                F = [[0 if rng.random() < pz else x for x in row] for row in F]
+                if any(not any(row) for row in F) or any(not any(row[r] for row in F) for r in range(R)):
+                    continue
+                if n == 0 and d * R > 1 and not any(x == 0 for row in F for x in row):
+                    continue
             if d < R or _wellcond(F, R):
                 break
         fs.append(F)
@@ -167,7 +179,7 @@ def tucker_ranks(rng, shape):
     return [1] * len(shape)
 
 
-def base_run(rng, alg, shape=None, seeded=False, zero_slice=False):
+def base_run(rng, alg, shape=None, seeded=False, zero_slice=False, zero_init=False):
     """a complete dense run description with an explicit start (or a seed when `seeded`)"""
     shape = shape or pick_shape(rng, alg)
     N = len(shape)
@@ -210,7 +222,8 @@ def base_run(rng, alg, shape=None, seeded=False, zero_slice=False):
     if seeded:
         rd["seed"] = rng.randrange(1, 10 ** 6)
     elif alg != "hosvd":
-        rd["init"] = gen_init(rng, shape, rd["rank"], lo=(0 if alg.startswith("cp_apr_") and rng.random() < 0.3 else 1))
+        rd["init"] = gen_init(rng, shape, rd["rank"], lo=(0 if alg.startswith("cp_apr_") and rng.random() < 0.3 else 1),
+                              zeros=zero_init)
     return rd
 
 
@@ -245,16 +258,6 @@ def relabel(rd, p):
         o["ranks"] = [o["ranks"][k] for k in p]
     t["opts"] = o
     return t
-
-
-def has_empty_slice(rd):
-    """some mode-n slice of the data holds no nonzero (a row of the mode-n unfolding is empty)"""
-    shape = rd["shape"]
-    if rd.get("sparse"):
-        ent = [s for s, v in zip(rd["subs"], rd["vals"]) if v != 0]
-    else:
-        ent = [s for s, v in zip(tgen.all_subs(shape), rd["data"]) if v != 0]
-    return any(not any(s[n] == j for s in ent) for n in range(len(shape)) for j in range(shape[n]))
 
 
 def _nontrivial(rd, pair, p=None):
@@ -297,6 +300,34 @@ def gen_cases(rng, tier):
                 t = dict(b)
                 t["printitn"] = pr
                 cases.append(_mk("print", alg, b, t))
+    # 2b. print, all PAIRS of printing intervals {0,1,2,5} on runs of several outer iterations. cp_apr: the start has structural
+    #     zeros in the first factor, so whatever runs at the top of an outer iteration on the raw stored factors (MU's
+    #     inadmissible-zero repair, PDNR/PQNR's zero handling) runs right after a printed iteration in one run and after a silent
+    #     one in the other - a print branch that leaves the running model in a different state shows up here
+    ppairs = [(0, 1), (0, 2), (0, 5), (1, 2), (1, 5), (2, 5)]
+    for alg, n in (("cp_apr_mu", 3), ("cp_apr_pdnr", 2), ("cp_apr_pqnr", 2), ("cp_als", 1), ("tucker_als", 1)):
+        for j in range(n * k):
+            b = base_run(rng, alg, zero_init=alg.startswith("cp_apr_"))
+            if j % 2 == 1:
+                b = to_sparse(rng, b, "random")
+            b["opts"]["maxiters"] = {"cp_apr_mu": rng.choice([4, 5, 6]), "cp_apr_pdnr": rng.choice([3, 4, 5]),
+                                     "cp_apr_pqnr": rng.choice([2, 3])}.get(alg, 5)
+            if alg.startswith("cp_apr_"):
+                b["opts"]["stoptol"] = 1e-6                      # keep iterating: several outer iterations actually run
+            for p1, p2 in (ppairs if alg == "cp_apr_mu" or big else ppairs[:3] + [ppairs[3 + j % 3]]):
+                b1 = dict(b)
+                b1["printitn"] = p1
+                t = dict(b)
+                t["printitn"] = p2
+                cases.append(_mk("print", alg, b1, t, extra={"zero_init": alg.startswith("cp_apr_")}))
+    for j in range(1 * k):                                       # hosvd: verbosity thresholds are > 0, > 2, > 5
+        b = base_run(rng, "hosvd")
+        for p1, p2 in ((1, 3), (1, 6), (3, 6)):
+            b1 = dict(b)
+            b1["printitn"] = p1
+            t = dict(b)
+            t["printitn"] = p2
+            cases.append(_mk("print", "hosvd", b1, t))
     # 3. seed: the same global seed twice, random start drawn by pyttb
     for alg, n in (("cp_als", 4), ("cp_apr_mu", 2), ("cp_apr_pdnr", 2), ("cp_apr_pqnr", 2), ("tucker_als", 3), ("gcp", 3)):
         for j in range(n * k):
@@ -480,11 +511,6 @@ def oracle(c, o):
 
 
 # ------------------------------------------------------------------------------------------ known findings
-def _trig_pqnr_empty(c):
-    a = c.args
-    return a["pair"] == "repr" and a["alg"] == "cp_apr_pqnr" and has_empty_slice(a["base"])
-
-
 def _trig_pqnr_tie(c):
     """dense-vs-sparse PQNR runs long enough to revisit a (nearly) converged row: >= 2 sweeps, or >= 3 inner iterations"""
     a = c.args
@@ -492,20 +518,13 @@ def _trig_pqnr_tie(c):
     return a["pair"] == "repr" and a["alg"] == "cp_apr_pqnr" and (o["maxiters"] >= 2 or o["maxinneriters"] >= 3)
 
 
-TRIGGERS = {"pqnr_empty_slice": _trig_pqnr_empty, "pqnr_tie_regime": _trig_pqnr_tie}
+TRIGGERS = {"pqnr_tie_regime": _trig_pqnr_tie}
 
 
 def _replay(base, order):
     import random
     c = _mk("repr", base["alg"], base, to_sparse(random.Random(0), base, order))
     return oracle(c, run_impl(c))
-
-
-def _wit_a33():
-    base = {"alg": "cp_apr_pqnr", "shape": [3, 2], "sparse": False, "printitn": 0, "seed": None, "data": [1, 0, 2, 3, 0, 1], "rank": 1,
-            "init": {"den": 4, "factors": [[[1], [4], [3]], [[2], [1]]]},
-            "opts": {"maxiters": 1, "stoptol": 1e-4, "maxinneriters": 1}}
-    return _replay(base, "sorted")
 
 
 def _wit_tie():
@@ -516,4 +535,4 @@ def _wit_tie():
     return _replay(base, "reversed")
 
 
-WITNESSES = {"A-33": _wit_a33, "C18-PQNR-TIE": _wit_tie}
+WITNESSES = {"C18-PQNR-TIE": _wit_tie}
